@@ -10,13 +10,28 @@ configuration — zero and non-zero draw-down, stability and closing fees — an
 * "circulating supply … never exceeds the principal recorded on open vaults, stable-mint vaults, vaults awaiting
    auction …, and in histories without liquidations it is exactly equal"                → `C02.supply_le_principal`
    (inequality for EVERY history incl. seizures and auction settlements) and `C02.supply_eq_principal` (equality for
-   histories without auction settlement). Emergency redemption (x/esm) is outside this model — partial.
+   histories without second-generation auction settlement). Emergency redemption (x/esm): `esmVault_registers_principal`,
+   `esmBurn_burns_registered`.
 * "every successful mint delivers to the user exactly the recorded new principal less the configured draw-down fee
    (which goes to the fee collector)"                                                   → `C02.mint_delivers_create`,
                                                               `C02.mint_delivers_draw`, `C02.mint_delivers_stable`
 * "every repayment or close burns exactly the principal it retires, and interest and closing fees are paid out of
    existing supply, never minted"                                                       → `C02.supply_moves_with_principal`
 * cross-decimal conversion of the stable-mint path is total and non-negative            → `Vault.otherToken_nonneg`
+
+Per message (every one of the 22 modelled step kinds; `supplyDelta` is read off the message and the pre-state):
+* exact supply effect of every accepted step                                            → `C02.supply_moves_exactly`
+* "every successful mint delivers exactly the new principal less the draw-down fee" for EVERY minting message
+      → `mint_delivers_create`, `mint_delivers_draw`, `mint_delivers_depositAndDraw`, `mint_delivers_stable` (create),
+        `mint_delivers_stableDeposit`
+* "every repayment or close burns exactly the principal it retires"
+      → `C02.burn_exact_repay`, `C02.burn_exact_close`, `C02.burn_exact_stableWithdraw`
+* "interest and closing fees are paid out of existing supply, never minted"
+      → `C02.interest_not_minted` (deposit, withdraw, interest booking, donation, seizure, redemption of a vault: Δsupply = 0),
+        `C02.burn_exact_repay` (interest-only repayment: Δsupply = 0), `C02.burn_exact_close` (interest + closing fee move, only the
+        principal is burnt)
+* no mint on the liquidation / auction / emergency paths of either generation           → `C02.liquidation_paths_never_mint`
+* the supply clauses with the product configuration changing between messages           → `C02.supply_le_principal_reconfig`
 -/
 namespace Comdex.C02
 open Comdex Comdex.Vault Comdex.C01
